@@ -17,5 +17,7 @@ sys.path.insert(0, "$here/lib"); sys.path.insert(0, "$here/lib/mirse")
 from lemma import Session
 s = Session.get()
 print("MIR dump:", s.dump_path, "functions:", len(s.prog.fns))
+s2 = Session.get("compiler,stdlib-base")
+print("MIR dump (stdlib-base):", s2.dump_path, "functions:", len(s2.prog.fns))
 PY
 exit $rc
